@@ -88,6 +88,11 @@ CHECKS = {
         technique='reference outcomes from a fresh interpreter per call; sequential histories enumerated over a pool of valid / invalid texts; token-level interleavings of two parses enumerated by TLC (PureCalls.tla) and realised with real threads gated at every token; thread-pool stress; all recorded histories validated by PureTrace.tla',
         text='Over a pool of 10 texts (half invalid: unclosed parenthesis, surplus parenthesis, lexical error, syntax error, production error) x comment flag: sequential histories of two and three calls; every interleaving at token granularity of two parses (TLC-enumerated schedules executed by gating real threads inside the lexer token hand-over); free-running thread pools under three switch intervals.  TLC checks for every recorded history that each finished call returns the outcome (tree with positions, or exception type and message) a fresh interpreter gives.',
         note='Pre-emption inside a token step is stressed, not enumerated; outcome equality is by digest.'),
+    'C17': dict(
+        category='model_checking', design_ref='5 (C17)',
+        technique='TLC enumerates maintenance histories of the table modules (TabsImpl.tla); each history and each table configuration is exercised in a fresh interpreter on a scratch copy; full outcomes over a TLC-derived input pool compared pairwise',
+        text='For an input pool of TLC-derived programs (with line-break layouts that exercise the ASI / regex backtracking paths) and non-derivable mutations, the full outcome (tree with positions and values, or exception type and message) is computed in fresh interpreters with: generated modules, absent modules, modules regenerated by `python -m calmjs.parse.parsers.optimize`, and after every TabsImpl history (purge, reoptimize, optimize_build, parser constructions) x {default optimised parser, lex/yacc optimisation off}.  All outcomes must be equal.',
+        note='Only ply 3.11 / Python 3.12 exist in the sandbox; the TabsImpl model predicts the presence of the modules on disk after a history (drift is reported, not judged).'),
 }
 
 NOT_YET = {}
